@@ -308,7 +308,7 @@ Contract(
             c.ret == _decoded(c, _reply(c))), ("C01", "C08")),
     ],
     modifies=[Ghost("sent"), Ghost("imports"), Ghost("constructs"), Ghost("xlate_log"), Ghost("x_kind"), Ghost("x_val"),
-              Ghost("checked_name"), Ghost("transport_failed"), Field(lambda c: c.old(c.a.self, _P + "history"), "requests"),
+              Ghost("checked_name"), Ghost("bean_attrs"), Ghost("transport_failed"), Field(lambda c: c.old(c.a.self, _P + "history"), "requests"),
               Field(lambda c: c.old(c.a.self, _P + "history"), "responses")],
     props=("C17", "C01", "C19"),
 )
@@ -378,10 +378,154 @@ for _name, _notify in (("_request", False), ("_request_notify", True)):
                        get(c.gnew("last_dumped"), "method") == c.a.methodname)), ("C01",)),
         ],
         modifies=[Ghost("sent"), Ghost("imports"), Ghost("constructs"), Ghost("xlate_log"), Ghost("x_kind"), Ghost("x_val"),
-                  Ghost("checked_name"), Ghost("uuid_ctr"), Ghost("last_dumped"), Ghost("transport_failed"),
+                  Ghost("checked_name"), Ghost("bean_attrs"), Ghost("uuid_ctr"), Ghost("last_dumped"), Ghost("transport_failed"),
                   Field(lambda c: c.old(c.a.self, _P + "history"), "requests"),
                   Field(lambda c: c.old(c.a.self, _P + "history"), "responses"), Fresh("args")],
         props=("C06", "C01"),
     )
 
 T.declare_ghost("transport_failed", z3.BoolSort())
+
+
+def list_equiv(a, b):
+    """the same list: same length and the same element at every index (contents beyond the length are irrelevant)"""
+    return z3.And(V.is_list(a), V.is_list(b), Val.llen(a) == Val.llen(b),
+                  z3.Implies(z3.And(FJ >= 0, FJ < Val.llen(a)), z3.Select(Val.lat(a), FJ) == z3.Select(Val.lat(b), FJ)))
+
+
+Contract(
+    TMIX + ".__init__",
+    self_class=TR,
+    kinds={"config": "obj:" + CONFIG},
+    requires=[("config", lambda c: valid_config(c, c.a.config))],
+    ensures=[("initial_state", lambda c: z3.And(c.returns, c.new(c.a.self, STACK) == V.empty_list(),
+                                                c.new(c.a.self, "_config") == c.a.config,
+                                                c.new(c.a.self, "user_agent") == c.old(c.a.config, "user_agent")), ("C18", "C17"))],
+    modifies=[Field(lambda c: c.a.self, f) for f in ("_config", "context", "user_agent", STACK, "accept_gzip_encoding", "verbose")],
+    props=("C18",),
+)
+
+
+def _tstack(c, heap):
+    t = c.old(c.a.self, _P + "transport")
+    return (c.old if heap == "old" else c.new)(t, STACK)
+
+
+Contract(
+    SP + "._additional_headers",
+    requires=[("proxy", _sp_inv), ("stack", lambda c: z3.And(V.is_list(_tstack(c, "old")), Val.llen(_tstack(c, "old")) >= 0))],
+    ensures=[
+        ("headers_in_force_restored_on_every_exit", lambda c: list_equiv(_tstack(c, "new"), _tstack(c, "old")), ("C18",)),
+        ("block_exception_propagates", lambda c: z3.BoolVal(True), ("C18",)),
+    ],
+    modifies=[Field(lambda c: c.old(c.a.self, _P + "transport"), STACK)],
+    props=("C18",),
+)
+
+
+def _stripped_scheme(uri):
+    sch = url_scheme(uri)
+    return z3.If(z3.PrefixOf(sv("unix+"), sch), z3.SubString(sch, 5, z3.Length(sch) - 5), sch)
+
+
+def _is_unix(uri):
+    return z3.PrefixOf(sv("unix+"), url_scheme(uri))
+
+
+Contract(
+    SP + ".__init__",
+    kinds={"uri": "str", "config": "obj:" + CONFIG, "transport": "opt:obj:" + TR, "history": "val"},
+    requires=[("config", lambda c: valid_config(c, c.a.config)),
+              ("given-transport", lambda c: z3.Or(V.is_none(c.a.transport), z3.And(
+                  V.is_list(c.old(c.a.transport, STACK)), Val.llen(c.old(c.a.transport, STACK)) >= 0,
+                  Val.ref(c.a.transport) != Val.ref(c.a.self))))],
+    ensures=[
+        ("unsupported_scheme_rejected", lambda c: implies(
+            z3.And(_stripped_scheme(Val.s(c.a.uri)) != sv("http"), _stripped_scheme(Val.s(c.a.uri)) != sv("https")),
+            c.raises(OSError)), ("C17",)),
+        ("target_host_and_query_from_the_url", lambda c: implies(c.returns, z3.And(
+            c.new(c.a.self, _P + "host") == V.VStr(url_netloc(Val.s(c.a.uri))),
+            c.new(c.a.self, _P + "query_string") == V.VStr(url_query(Val.s(c.a.uri))),
+            c.new(c.a.self, _P + "handler") == V.VStr(z3.If(
+                z3.Or(_is_unix(Val.s(c.a.uri)), z3.Length(url_path(Val.s(c.a.uri))) == 0), sv("/"), url_path(Val.s(c.a.uri)))),
+            c.new(c.a.self, _P + "version") == z3.If(V.truthy(c.a.version), c.a.version, c.old(c.a.config, "version")),
+            c.new(c.a.self, "_config") == c.a.config, c.new(c.a.self, _P + "history") == c.a.history)), ("C17", "C01")),
+        ("constructor_headers_pushed_once", lambda c: implies(z3.And(c.returns, z3.Not(V.is_none(c.a.transport))), z3.And(
+            c.new(c.a.self, _P + "transport") == c.a.transport,
+            c.new(c.a.transport, STACK) == _appended(c.old(c.a.transport, STACK),
+                                                    z3.If(V.truthy(c.a.headers), c.a.headers, V.empty_dict())))), ("C18",)),
+        ("own_transport_gets_exactly_the_constructor_headers", lambda c: implies(z3.And(c.returns, V.is_none(c.a.transport)), z3.And(
+            c.fresh_obj(c.new(c.a.self, _P + "transport")),
+            c.new(c.new(c.a.self, _P + "transport"), STACK) ==
+            _appended(V.empty_list(), z3.If(V.truthy(c.a.headers), c.a.headers, V.empty_dict())))), ("C18",)),
+    ],
+    modifies=[Field(lambda c: c.a.self, f) for f in ("_config", _P + "version", _P + "host", _P + "handler", _P + "query_string",
+                                                     _P + "transport", _P + "encoding", _P + "verbose", _P + "history")] +
+             [Field(lambda c: c.a.transport, STACK)] +
+             [Fresh(f) for f in ("scheme", "netloc", "path", "query", "_config", "context", "user_agent", STACK,
+                                 "accept_gzip_encoding", "verbose", "_connection", "_extra_headers",
+                                 "_UnixTransport__unix_path", "args")],
+    props=("C17", "C18"),
+)
+
+
+# --- response reassembly on the client (C17) --------------------------------------------------------------------------------
+JT = "jsonrpclib.jsonrpc.JSONTarget"
+Contract(JT + ".__init__", ensures=[("empty_buffer", lambda c: z3.And(c.returns, c.new(c.a.self, "data") == V.empty_list()), ("C17",))],
+         modifies=[Field(lambda c: c.a.self, "data")], props=("C17",))
+Contract(JT + ".feed",
+         requires=[("buffer", lambda c: z3.And(V.is_list(c.old(c.a.self, "data")), Val.llen(c.old(c.a.self, "data")) >= 0))],
+         ensures=[("raw_chunk_appended", lambda c: z3.And(
+             c.returns, c.new(c.a.self, "data") == _appended(c.old(c.a.self, "data"), c.a.data)), ("C17",))],
+         modifies=[Field(lambda c: c.a.self, "data")], props=("C17",))
+
+
+def _chunks(c):
+    return c.old(c.a.self, "data")
+
+
+Contract(
+    JT + ".close",
+    requires=[("buffer", lambda c: z3.And(V.is_list(_chunks(c)), Val.llen(_chunks(c)) >= 0)),
+              ("chunks-of-one-kind", lambda c: implies(
+                  Val.llen(_chunks(c)) > 0,
+                  z3.Or(z3.And(V.is_bytes(z3.Select(Val.lat(_chunks(c)), 0)), all_bytes(_chunks(c))),
+                        z3.And(V.is_str(z3.Select(Val.lat(_chunks(c)), 0)), all_str(_chunks(c))))))],
+    ensures=[
+        ("no_chunk_is_empty_text", lambda c: implies(Val.llen(_chunks(c)) == 0, z3.And(c.returns, c.ret == V.S(""))), ("C17",)),
+        ("bytes_are_decoded_once_as_a_whole", lambda c: implies(
+            z3.And(Val.llen(_chunks(c)) > 0, all_bytes(_chunks(c)), V.is_bytes(z3.Select(Val.lat(_chunks(c)), 0)),
+                   V.utf8_valid(bjoin_of(_chunks(c)))),
+            z3.And(c.returns, c.ret == V.VStr(V.dec_utf8(bjoin_of(_chunks(c)))))), ("C17",)),
+        ("undecodable_bytes_pass_through", lambda c: implies(
+            z3.And(Val.llen(_chunks(c)) > 0, all_bytes(_chunks(c)), V.is_bytes(z3.Select(Val.lat(_chunks(c)), 0)),
+                   z3.Not(V.utf8_valid(bjoin_of(_chunks(c))))),
+            z3.And(c.returns, c.ret == V.VBytes(bjoin_of(_chunks(c))))), ("C17",)),
+        ("text_chunks_are_joined", lambda c: implies(
+            z3.And(Val.llen(_chunks(c)) > 0, all_str(_chunks(c)), V.is_str(z3.Select(Val.lat(_chunks(c)), 0))),
+            z3.And(c.returns, c.ret == V.VStr(bjoin_of(_chunks(c))))), ("C17",)),
+        ("buffer_untouched", lambda c: c.new(c.a.self, "data") == c.old(c.a.self, "data"), ("C17",)),
+    ],
+    modifies=[],
+    props=("C17",),
+)
+
+FIELDS.declare("jsonrpclib.jsonrpc.JSONParser", "target", type=JT)
+Contract("jsonrpclib.jsonrpc.JSONParser.__init__", kinds={"target": "obj:" + JT},
+         ensures=[("target_stored", lambda c: z3.And(c.returns, c.new(c.a.self, "target") == c.a.target), ("C17",))],
+         modifies=[Field(lambda c: c.a.self, "target")], props=("C17",))
+Contract("jsonrpclib.jsonrpc.JSONParser.feed",
+         requires=[("target", lambda c: (lambda t: z3.And(V.is_obj(t), Val.ref(t) >= 0, Val.ref(t) != Val.ref(c.a.self),
+                                                          V.is_list(c.old(t, "data")), Val.llen(c.old(t, "data")) >= 0))(
+             c.old(c.a.self, "target")))],
+         ensures=[("chunk_forwarded_verbatim", lambda c: z3.And(
+             c.returns, c.new(c.old(c.a.self, "target"), "data") ==
+             _appended(c.old(c.old(c.a.self, "target"), "data"), c.a.data)), ("C17",))],
+         modifies=[Field(lambda c: c.old(c.a.self, "target"), "data")], props=("C17",))
+Contract(TMIX + ".getparser",
+         ensures=[("parser_feeds_a_fresh_target", lambda c: z3.And(
+             c.returns, V.is_tuple(c.ret), Val.tlen(c.ret) == 2,
+             (lambda p, t: z3.And(c.fresh_obj(p), c.fresh_obj(t), c.new(p, "target") == t,
+                                  c.new(t, "data") == V.empty_list()))(z3.Select(Val.tat(c.ret), 0), z3.Select(Val.tat(c.ret), 1))),
+                   ("C17",))],
+         modifies=[Fresh("target"), Fresh("data")], props=("C17",))
